@@ -10,6 +10,7 @@ PROP = {
         {"name": "sweep32", "mode": "enum", "hang_s": 60},
         {"name": "toa", "quick": 3000000, "thorough": 20000000, "maxlen": 32},
         {"name": "ato", "quick": 4000000, "thorough": 20000000, "maxlen": 40},
+        {"name": "ato_empty", "quick": 300000, "thorough": 3000000, "maxlen": 24},
         {"name": "libc_itoa", "quick": 1500000, "thorough": 10000000, "maxlen": 32},
         {"name": "dprint", "quick": 1500000, "thorough": 10000000, "maxlen": 32},
         {"name": "dprint_buf", "quick": 300000, "thorough": 3000000, "maxlen": 32},
